@@ -11,9 +11,9 @@ CONSTS = {
     ("quick", "graph"): dict(MaxEntries=3, Keys="KeysGraph", Values="ValsQ", DialectName='"graph"', FaultEntries="Faults"),
     ("quick", "coarse"): dict(MaxEntries=2, Keys="KeysGraph", Values="ValsQ", DialectName='"coarse"', FaultEntries="Faults"),
     ("quick", "atom"): dict(MaxEntries=3, Keys="KeysAtom", Values="ValsQ", DialectName='"atom"', FaultEntries="Faults"),
-    ("thorough", "graph"): dict(MaxEntries=4, Keys="KeysGraph", Values="ValsT", DialectName='"graph"', FaultEntries="Faults"),
+    ("thorough", "graph"): dict(MaxEntries=3, Keys="KeysGraph", Values="ValsT", DialectName='"graph"', FaultEntries="Faults"),
     ("thorough", "coarse"): dict(MaxEntries=3, Keys="KeysGraph", Values="ValsT", DialectName='"coarse"', FaultEntries="Faults"),
-    ("thorough", "atom"): dict(MaxEntries=4, Keys="KeysAtom", Values="ValsT", DialectName='"atom"', FaultEntries="Faults"),
+    ("thorough", "atom"): dict(MaxEntries=3, Keys="KeysAtom", Values="ValsT", DialectName='"atom"', FaultEntries="Faults"),
 }
 
 
